@@ -126,7 +126,15 @@ theorem print_parse_roundtrip (e : SE) (esc : Bool) (hp : e.printable esc = true
 
 /-! ## the text layer: every token of a printable expression lexes back -/
 
-def AllLex (ts : List Tok) : Prop := ∀ t ∈ ts, t.lexable = true
+/-- the token is a feature ID whose printed form is ASCII, or not a feature ID at all.  The lexer reads
+feature-ID tokens rune by rune (`unicode.IsLetter / IsDigit`); the model does too (with a hand-written extract of
+the Unicode tables, tied by the run only), but `lex_render` is proved for ASCII ID tokens -/
+def asciiID : Tok → Bool
+  | .id f => (unparse f true).all (· < 128)
+  | _ => true
+
+/-- every token lexes back, the feature IDs among them provided they are ASCII -/
+def AllLex (ts : List Tok) : Prop := ∀ t ∈ ts, asciiID t = true → t.lexable = true
 
 theorem allLex_append {a b : List Tok} (ha : AllLex a) (hb : AllLex b) : AllLex (a ++ b) := by
   intro t ht
@@ -135,7 +143,23 @@ theorem allLex_append {a b : List Tok} (ha : AllLex a) (hb : AllLex b) : AllLex 
   · exact hb t h
 
 theorem allLex_single {t : Tok} (h : t.lexable = true) : AllLex [t] := by
-  intro x hx; simp only [List.mem_singleton] at hx; subst hx; exact h
+  intro x hx _; simp only [List.mem_singleton] at hx; subst hx; exact h
+
+/-- an ID token the rune-level check accepts and that is ASCII passes the byte-level check -/
+theorem idRunes_ascii : ∀ (F : Nat) (s : Bytes), idRunesOK F s = true → s.all (· < 128) = true →
+    s.all isIDByte = true := by
+  intro F
+  induction F with
+  | zero => intro s h _; cases s <;> simp_all [idRunesOK]
+  | succ F ih =>
+    intro s h ha
+    cases s with
+    | nil => rfl
+    | cons c cs =>
+      simp only [List.all_cons, Bool.and_eq_true, decide_eq_true_eq] at ha
+      simp only [idRunesOK, ha.1, ↓reduceIte, Bool.and_eq_true] at h
+      simp only [List.all_cons, Bool.and_eq_true]
+      exact ⟨h.1, ih cs h.2 ha.2⟩
 
 theorem keyTok_lexable (k : Bytes) (hne : k ≠ []) (hk : keyBare k = true) : (keyTok k).lexable = true := by
   cases k with
@@ -170,7 +194,7 @@ theorem valueTok_lexable (v : Bytes) (hv : (valueBare v || plain v) = true) :
 theorem tagToks_lexable (k v : Bytes) (hne : k ≠ []) (hk : keyBare k = true)
     (hv : (valueBare v || plain v) = true) : AllLex (tagToks k v) := by
   rw [tagToks_printable k v hk]
-  intro t ht
+  intro t ht _
   simp only [List.mem_cons, List.not_mem_nil, or_false] at ht
   rcases ht with rfl | rfl | rfl
   · exact keyTok_lexable k hne hk
@@ -210,18 +234,25 @@ end
 
 theorem lit_lexable (l : Lit) (hp : l.printable false = true) : AllLex l.toks := by
   cases l with
-  | str s => simpa [Lit.printable, plain, plainByte, AllLex, Lit.toks, Tok.lexable] using hp
-  | int i => simpa [Lit.printable, AllLex, Lit.toks, Tok.lexable] using hp
-  | float t => simpa [Lit.printable, AllLex, Lit.toks, Tok.lexable] using hp
+  | str s => exact allLex_single (by simpa [Lit.printable, plain, plainByte, Tok.lexable] using hp)
+  | int i => exact allLex_single (by simpa [Lit.printable, Tok.lexable] using hp)
+  | float t => exact allLex_single (by simpa [Lit.printable, Tok.lexable] using hp)
   | point lat lng =>
     simp only [Lit.printable, Bool.and_eq_true] at hp
-    intro t ht
+    intro t ht _
     simp only [Lit.toks, List.mem_cons, List.not_mem_nil, or_false] at ht
     rcases ht with rfl | rfl | rfl
     · exact hp.1
     · rfl
     · exact hp.2
-  | id f => simpa [Lit.printable, idLexable, AllLex, Lit.toks, Tok.lexable] using hp
+  | id f =>
+    intro t ht hascii
+    simp only [Lit.toks, List.mem_singleton] at ht
+    subst ht
+    simp only [Lit.printable, idLexable, Bool.and_eq_true, decide_eq_true_eq] at hp
+    simp only [asciiID] at hascii
+    simp only [Tok.lexable, Bool.and_eq_true, decide_eq_true_eq]
+    exact ⟨⟨hp.1.1, hp.1.2⟩, idRunes_ascii _ _ hp.2 hascii⟩
   | tag k v =>
     simp only [Lit.printable, Bool.and_eq_true, decide_eq_true_eq, Bool.or_false] at hp
     exact tagToks_lexable k v hp.1.1 hp.1.2 hp.2
@@ -230,7 +261,7 @@ theorem lit_lexable (l : Lit) (hp : l.printable false = true) : AllLex l.toks :=
     exact allLex_append (allLex_append (allLex_single rfl) (q_lexable q hp).1) (allLex_single rfl)
 
 theorem lambdaHead_lexable : ∀ (ps : List Bytes), ps.all symbolLike = true → AllLex (lambdaHead ps)
-  | [], _ => by intro t ht; simp [lambdaHead] at ht
+  | [], _ => by intro t ht _; simp [lambdaHead] at ht
   | [p], h => by
     simp only [List.all_cons, List.all_nil, Bool.and_true] at h
     exact allLex_single (by cases p <;> simpa [symbolLike, Tok.lexable] using h)
@@ -239,12 +270,12 @@ theorem lambdaHead_lexable : ∀ (ps : List Bytes), ps.all symbolLike = true →
     have ih := lambdaHead_lexable (p' :: ps) (by simpa only [List.all_cons, Bool.and_eq_true] using h.2)
     have hp : (Tok.sym p).lexable = true := by cases p <;> simpa [symbolLike, Tok.lexable] using h.1
     simp only [lambdaHead]
-    intro t ht
+    intro t ht ha
     simp only [List.mem_cons] at ht
     rcases ht with rfl | rfl | ht
     · exact hp
     · rfl
-    · exact ih t ht
+    · exact ih t ht ha
 
 mutual
 theorem se_lexable : ∀ (e : SE), e.printable false = true → ∀ (top : Bool) ts, e.toks top = .ok ts → AllLex ts
@@ -273,7 +304,7 @@ theorem se_lexable : ∀ (e : SE), e.printable false = true → ∀ (top : Bool)
       simp only [SEL.toks, UR.ok.injEq] at ha; subst ha
       simp only [Bool.false_eq_true, ↓reduceIte, UR.ok.injEq] at h; subst h
       exact allLex_append (allLex_append (allLex_append (allLex_single rfl) (se_lexable f hp.1.2 false ft hf))
-        (by intro t ht; simp at ht)) (allLex_single rfl)
+        (by intro t ht _; simp at ht)) (allLex_single rfl)
   | .call f (.cons a as) false, hp, top, ts, h => by
     simp only [SE.printable, Bool.and_eq_true] at hp
     simp only [SE.toks] at h
@@ -329,7 +360,7 @@ theorem se_lexable : ∀ (e : SE), e.printable false = true → ∀ (top : Bool)
       exact allLex_append (allLex_append (allLex_append (allLex_append (allLex_single rfl) h1) (allLex_single rfl))
         (allLex_append h2 h3)) (allLex_single rfl)
 theorem sel_lexable : ∀ (es : SEL), es.printable false = true → ∀ ts, es.toks = .ok ts → AllLex ts
-  | .nil, _, ts, h => by simp only [SEL.toks, UR.ok.injEq] at h; subst h; intro t ht; simp at ht
+  | .nil, _, ts, h => by simp only [SEL.toks, UR.ok.injEq] at h; subst h; intro t ht _; simp at ht
   | .cons e es, hp, ts, h => by
     simp only [SEL.printable, Bool.and_eq_true] at hp
     simp only [SEL.toks] at h
@@ -352,9 +383,11 @@ theorem lex_render (ts : List Tok) (h : ∀ t ∈ ts, t.lexable = true) :
 
 /-- **The property at the text level.**  A printable expression (strings and tag values without escapes — see
 the finding `string-needs-escape` —, finite floats in the printer's decimal form) prints to a text; lexing that
-text gives back the printed tokens with spans that hold exactly their texts; parsing those tokens gives the
-normal form of the expression; and the spans of the parsed tree nest (if it holds no `lat, lng`). -/
-theorem print_parse_roundtrip_text (e : SE) (hp : e.printable false = true) :
+text gives back the printed tokens with spans that hold exactly their texts (feature-ID tokens: ASCII ones;
+non-ASCII namespaces are covered by the rune-level model and the run, not by this theorem); parsing those tokens
+gives the normal form of the expression; and the spans of the parsed tree nest (if it holds no `lat, lng`). -/
+theorem print_parse_roundtrip_text (e : SE) (hp : e.printable false = true)
+    (hascii : ∀ ts, e.toks true = .ok ts → ∀ t ∈ ts, asciiID t = true) :
     ∃ ts, e.toks true = .ok ts ∧
       ∃ pts, lex (render ts) = .ok pts ∧ toksOf pts = ts ∧
         (∀ pt ∈ pts, pt.e = pt.b + pt.tok.text.length ∧
@@ -362,7 +395,8 @@ theorem print_parse_roundtrip_text (e : SE) (hp : e.printable false = true) :
         ∃ n pe, PE.strip pe = e.normC ∧ (pe.noPoint = true → pe.nested = true) ∧
           ∀ F, parseTop (F + n) pts = .ok pe := by
   obtain ⟨ts, hts, hrt⟩ := print_parse_roundtrip e false hp
-  obtain ⟨pts, hlex, htoks, hsorted, hslices⟩ := lex_render ts (se_lexable e hp true ts hts)
+  have hall : ∀ t ∈ ts, t.lexable = true := fun t ht => se_lexable e hp true ts hts t ht (hascii ts hts t ht)
+  obtain ⟨pts, hlex, htoks, hsorted, hslices⟩ := lex_render ts hall
   obtain ⟨n, pe, hstrip, hnest, hparse⟩ := hrt pts 0 htoks hsorted
   exact ⟨ts, hts, pts, hlex, htoks, hslices, n, pe, hstrip, fun h => (hnest h).1, hparse⟩
 
